@@ -144,7 +144,22 @@ def part_generated(ctx, cfgs):
                           key=f"C02:gen:{groups[1][0]}")
     for exc, lst in crashes.items():
         i, cfg, msg = lst[0]
-        report_crash(ctx, exc, cfg, msg, items[i]["prog"].vy(), len(lst))
+        prog = items[i]["prog"]
+        try:   # shrink the crashing program (statement / expression deletion) while the same exception type persists
+            from vlib.c01_shrink import shrink_pred
+            from vlib.configs import compile_src
+            ncfg, _why = narrow_crash(exc, cfg, prog.vy())
+
+            def still(p):
+                try:
+                    compile_src(p.vy(), ncfg, formats=("bytecode",))
+                    return False
+                except Exception as e:
+                    return type(e).__name__ == exc
+            prog = shrink_pred(prog, still, budget_s=30 if ctx.tier == "quick" else 90)
+        except Exception as e:
+            ctx.log(f"crash shrinking failed: {e}")
+        report_crash(ctx, exc, cfg, msg, prog.vy(prune=True), len(lst))
     ctx.corr["generated"] = {"programs": len(items), "calls_compared": n_cmp, "revert": D.revert_stats(items),
                              "config_dependent_crashes": {k: len(v) for k, v in crashes.items()},
                              "seconds": round(time.time() - t0, 1)}
